@@ -18,7 +18,8 @@ TScript == /\ l <= Len(Trace) /\ Trace[l].ev = "script"
            /\ LET rec == Trace[l] IN
                 /\ script' = [funcs |-> rec.funcs, checks |-> rec.checks]
                 /\ ok' = (rec.syntax = "")
-                /\ IF rec.syntax # "" THEN Report(rec, "harness: SQL output not understood: " \o rec.syntax)
+                /\ IF rec.syntax = "unterminated string" THEN Report(rec, "the SQL script is not lexically valid: a string literal never ends (a quote inside a literal is not doubled)")
+                   ELSE IF rec.syntax # "" THEN Report(rec, "harness: SQL output not understood: " \o rec.syntax)
                    ELSE IF UndefinedCalls([funcs |-> rec.funcs, checks |-> rec.checks]) # {}
                         THEN Report(rec, "a validation function is called but not defined in the script: " \o One(UndefinedCalls([funcs |-> rec.funcs, checks |-> rec.checks])))
                    ELSE TRUE
